@@ -76,9 +76,10 @@ def gen_random(rng, count, min_t=2, max_t=4, max_rounds=3):
 
 def gen_exhaustive_pairs(length=13, rounds=1):
     cases = []
-    kinds = [("sync", r) for r in ["lx", "ld", "tx"]] + [("coro", r) for r in CORO_ROUNDS]
+    kinds = ([("sync", r) for r in ["lx", "ld", "tx", "kxs", "lgo", "lms"]] +
+             [("coro", r) for r in CORO_ROUNDS + ["lxf", "cg", "cas"]])
     for a, b in itertools.combinations_with_replacement(kinds, 2):
-        threads = ["t %s %s" % (a[0], " ".join([a[1]] * rounds)), "t %s %s" % (b[0], " ".join([b[1]] * rounds))]
+        threads = legalise(["t %s %s" % (a[0], " ".join([a[1]] * rounds)), "t %s %s" % (b[0], " ".join([b[1]] * rounds))])
         for bits in itertools.product([0, 1], repeat=length):
             cases.append(make_case(threads, list(bits)))
     return cases
@@ -152,15 +153,29 @@ class MutexSuite(Suite):
 
     def stats(self, cases, outs):
         shapes, waits, hand, dl, kinds = {}, 0, 0, 0, {}
+        acq, rel, opts = {}, {}, {}
+        ACQ = {"l": "blocking lock", "t": "try_lock", "c": "co_await lock", "k": "callback awaiter"}
+        REL = {"x": "release() discarded", "d": "destroyed / empty ownership assigned", "a": "co_await release()",
+               "g": "hand-over-hand: aux mutex' ownership assigned over it", "m": "moved into a temporary"}
+        OPT = {"s": "ownership in the shared slot", "f": "force_wait() spelling", "o": "ownership(co_awaiter&&) spelling"}
         for c in cases:
             ths = c["lines"][1:-2]
             k = "%d contenders" % len(ths)
             shapes[k] = shapes.get(k, 0) + 1
             for t in ths:
+                kind = t.split()[1]
                 for r in t.split()[2:]:
-                    kinds[r] = kinds.get(r, 0) + 1
+                    kinds[r[:2]] = kinds.get(r[:2], 0) + 1
+                    a = "%s in a %s contender" % (ACQ.get(r[0], r[0]), "coroutine" if kind == "coro" else "thread")
+                    acq[a] = acq.get(a, 0) + 1
+                    rel[REL.get(r[1], r[1])] = rel.get(REL.get(r[1], r[1]), 0) + 1
+                    for o in r[2:]:
+                        opts[OPT.get(o, o)] = opts.get(OPT.get(o, o), 0) + 1
             o = outs.get(str(c["id"]), [])
             waits += sum(1 for l in o if re.search(r"cas\+ req (door|ptr)>ptr", l))
             hand += sum(1 for l in o if " xchg req " in l)
             dl += 1 if "deadlock" in o else 0
-        return {"contenders": shapes, "round_kinds": kinds, "requests_that_waited": waits, "queue_builds": hand, "deadlocks_reported": dl}
+            cbw = sum(1 for l in o if l.endswith(" cb-pass"))
+            acq["callback granted as a waiter (cases)"] = acq.get("callback granted as a waiter (cases)", 0) + (1 if cbw else 0)
+        return {"contenders": shapes, "round_kinds": kinds, "acquisition": acq, "giving_up": rel, "options": opts,
+                "requests_that_waited": waits, "queue_builds": hand, "deadlocks_reported": dl}
